@@ -35,9 +35,12 @@ const (
 	pfxP  = "p"
 	pfxPP = "pp"
 	pfxP1 = "p-00000000000000000001" // a prefix that is itself a key of the sequence "p"
+	// a prefix that extends "p" by a byte below '-': its keys ("p+-<n>") start with "p", sort right below
+	// "p-<n>" and are not keys of the sequence "p"
+	pfxPlus = "p+"
 )
 
-var prefixes = []string{pfxP, pfxPP, pfxP1}
+var prefixes = []string{pfxP, pfxPP, pfxP1, pfxPlus}
 
 const two63 = uint64(1) << 63
 const maxU64 = ^uint64(0)
